@@ -321,7 +321,44 @@ func runCheck(id, tier string, seed int) int {
 			jobs = append(jobs, solveJob{o, r.Ctx})
 		}
 	}
+	var skippedStar []string
 	lemmasDone := map[string]bool{}
+	// a unit with func "*" stands for every function of the package that is not listed explicitly (same groups)
+	var expanded []PropUnit
+	explicit := map[string]bool{}
+	for _, pu := range spec.Units {
+		if pu.Func != "*" {
+			explicit[pu.Pkg+"|"+pu.Func] = true
+		}
+	}
+	starUnits := map[string]bool{}
+	for _, pu := range spec.Units {
+		if pu.Func != "*" {
+			expanded = append(expanded, pu)
+			continue
+		}
+		ip := repoMod
+		if pu.Pkg != "." {
+			ip = repoMod + "/" + pu.Pkg
+		}
+		p := eng.pkgs[ip]
+		if p == nil {
+			fmt.Printf("BROKEN: package %s not loaded\n", pu.Pkg)
+			broken = true
+			continue
+		}
+		for _, key := range eng.allFuncKeys(p) {
+			if explicit[pu.Pkg+"|"+key] || starUnits[pu.Pkg+"|"+key] || key == "init" || key == "main" {
+				continue
+			}
+			q := pu
+			q.Func = key
+			q.MinObls = 0
+			expanded = append(expanded, q)
+			starUnits[pu.Pkg+"|"+key] = true
+		}
+	}
+	spec.Units = expanded
 	for _, pu := range spec.Units {
 		ip := repoMod
 		if pu.Pkg != "." {
@@ -348,12 +385,20 @@ func runCheck(id, tier string, seed int) int {
 			continue
 		}
 		res, err := eng.verifyFunc(p, pu.Func, false)
+		if err != nil && starUnits[pu.Pkg+"|"+pu.Func] {
+			skippedStar = append(skippedStar, pu.Func+": "+err.Error())
+			continue
+		}
 		if err != nil {
 			fmt.Printf("UNDECIDED: %v\n", err)
 			broken = true
 			continue
 		}
 		if res.Unsupported != "" {
+			if starUnits[pu.Pkg+"|"+pu.Func] {
+				skippedStar = append(skippedStar, res.Pkg+"."+res.Key+": "+res.Unsupported)
+				continue
+			}
 			fmt.Printf("UNDECIDED: %s.%s: outside the supported subset: %s\n", res.Pkg, res.Key, res.Unsupported)
 			broken = true
 			continue
@@ -524,7 +569,7 @@ func runCheck(id, tier string, seed int) int {
 		"coverage": map[string]any{
 			"obligations": total, "discharged": discharged, "checker_cmd": fmt.Sprintf("bin/vcgo check %s --tier %s", id, tier),
 			"trusted_base": spec.Trusted, "explanation": spec.Explanation, "samples": samples,
-			"functions": funcs, "unclaimed_obligations": unclaimedN, "unclaimed_by_name": unclaimedNames, "known_findings_matched": len(knownLines),
+			"functions": funcs, "unclaimed_obligations": unclaimedN, "unclaimed_by_name": unclaimedNames, "skipped_functions": skippedStar, "known_findings_matched": len(knownLines),
 			"solver_seconds": round3(solverSec), "backends": []string{"z3-new 5.1.0", "z3 4.8.12", "cvc5 1.0"},
 			"assumption_scan": assumeScan, "not_decided": spec.NotDecided,
 			"evaluations": total, "distinct_nontrivial": discharged,
